@@ -145,9 +145,12 @@ func c10Scripted(c *Ctx) {
 			return
 		}
 		nreq := 200 + r.IntN(c.N(600, 1800))
-		for q := 0; q < nreq; q++ {
+		// the last 36 requests form a steady tail: no outliers, all meters ready, requests back-off/3 apart
+		// (ten back-offs), so that the convergence clause P2 is always exercised to its bound
+		for q := 0; q < nreq+36; q++ {
+			tail := q >= nreq
 			// occasionally administer
-			if r.IntN(60) == 0 && len(srvs) >= 2 {
+			if !tail && r.IntN(60) == 0 && len(srvs) >= 2 {
 				op := r.IntN(3)
 				switch {
 				case op == 0 && len(srvs) < 7:
@@ -186,6 +189,9 @@ func c10Scripted(c *Ctx) {
 				prev, _ = weights()
 			}
 			// ratings for this request
+			if tail {
+				pattern, patternLeft = 3, 1000
+			}
 			if patternLeft == 0 {
 				pattern = r.IntN(8)
 				patternLeft = 10 + r.IntN(120)
@@ -230,7 +236,7 @@ func c10Scripted(c *Ctx) {
 						rt = pick(r, []float64{0, 0, 0.01})
 					}
 				}
-				ready := r.IntN(40) != 0
+				ready := r.IntN(40) != 0 || tail
 				ratings[k] = rt
 				if !ready {
 					allReady = false
@@ -248,6 +254,9 @@ func c10Scripted(c *Ctx) {
 				step = 0
 			default:
 				step = time.Duration(r.Int64N(int64(backoff/2) + 1))
+			}
+			if tail {
+				step = backoff / 3
 			}
 			advance(step)
 			tnow := now()
